@@ -20,8 +20,9 @@ _COMMON_NOTE = ('ASSUMED (never counted as proved, listed in evidence.trusted_ba
                 'pyvc/pandas_model.py), py_stringmatching tokenizers and measures (contracts/externals.py), joblib Parallel, pyprind; '
                 'pure-mathematics lemmas about the specification functions (inj_image, two counting facts, the prefix principle and '
                 'its converse, two edit-distance facts: DESIGN.md 0.4). '
-                'BOUNDED stand-ins (exhaustive small scope + seeded random on the real code, evidence.bounded_standins): '
-                'gen_token_ordering_for_tables, order_using_token_ordering, PositionFilter.find_candidates. '
+                'also assumed: CPython builtins used by the code (dict, list.index, sorted / list.sort as stable key-ordered permutations, zip). '
+                'BOUNDED stand-in (exhaustive small scope + seeded random on the real code, evidence.bounded_standins): the completeness '
+                'half of PositionFilter.find_candidates (its soundness half is proved). '
                 'Scope: all six *_join_py entry points, set_sim_join, InvertedIndex / OverlapFilter, SizeIndex / SizeFilter, '
                 'PrefixIndex / PrefixFilter (find_candidates, filter_tables), PositionIndex / PositionFilter (filter_tables), '
                 'Filter.filter_candset, apply_matcher. Not under contract (their part of the property is not decided by this check): '
@@ -31,54 +32,68 @@ _COMMON_NOTE = ('ASSUMED (never counted as proved, listed in evidence.trusted_ba
 
 CLAIMS.update({
     'C01': dict(
-        text='For jaccard/cosine/dice joins: the four pruning formulas of filter_utils are proved safe in a float model that '
-             'over-approximates IEEE-754 (all sizes <= 2^31, all thresholds in (0,1]); set_sim_join is proved, for every pair of tables, '
-             'to emit a row for every pair whose similarity satisfies the comparison raw and rounded (inductive invariants with ghost '
-             'origin maps), given the contracts of its callees; the *_join_py drivers are proved to relay exactly those rows on the '
-             'serial path.',
-        note=_COMMON_NOTE, technique=TECH, design_ref='DESIGN.md 4 (C01)'),
+        text='The four pruning formulas of filter_utils are proved safe in a float model that over-approximates IEEE-754 (all sizes <= 2^31, all '
+             'thresholds in (0,1]). set_sim_join (Jaccard / cosine / Dice), _overlap_coefficient_join_split and OverlapFilter._filter_tables_split '
+             '(overlap_join) are proved, for every pair of tables, to emit a row for every pair whose similarity satisfies the comparison '
+             '(raw and rounded where the library rounds) -- inductive invariants with ghost origin maps over the proved index structures '
+             '(PositionIndex, InvertedIndex) -- and the five *_join_py drivers are proved to relay exactly those rows on the serial path. '
+             'gen_token_ordering_for_tables / order_using_token_ordering are proved (injective total order defined on all tokens).',
+        note=_COMMON_NOTE + ' For the Jaccard / cosine / Dice joins the completeness of PositionFilter.find_candidates (every pair meeting '
+             'the size / prefix / overlap premises is a candidate) is the bounded stand-in; its soundness half is proved.',
+        technique=TECH, design_ref='DESIGN.md 0.3, 4 (C01)'),
     'C02': dict(
-        text='set_sim_join is proved to emit only pairs whose reported (4-decimal) score satisfies the comparison, each key pair at most '
-             'once (ghost origin map is injective), with _sim_score = round(sim, 4) or 1.0 for admitted empty pairs, and every row built '
-             'from the two source rows it names; drivers relay rows unchanged behind the _id column.',
-        note=_COMMON_NOTE, technique=TECH, design_ref='DESIGN.md 4 (C02)'),
+        text='set_sim_join, _overlap_coefficient_join_split and OverlapFilter._filter_tables_split are proved to emit only pairs whose reported '
+             'score satisfies the comparison, each key pair at most once (ghost origin map is injective), with _sim_score = round(sim, 4) '
+             '(1.0 for admitted empty pairs), the unrounded double overlap / min(sizes), resp. the integer overlap, and every row built '
+             'from the two source rows it names; InvertedIndex.build is proved to keep the size cache aligned with the row ids; drivers '
+             'relay rows unchanged behind the _id column.',
+        note=_COMMON_NOTE, technique=TECH, design_ref='DESIGN.md 0.3, 4 (C02)'),
     'C08': dict(
         text='get_pairs_with_missing_value is proved to return exactly one row for every pair with a missing join value on at least one '
-             'side, of the header width (pandas precondition), NaN score iff requested; drivers are proved to run the join on the '
-             'dropna-projected arrays and to append the missing pairs iff allow_missing; no exception for any distribution of missing values.',
-        note=_COMMON_NOTE, technique=TECH, design_ref='DESIGN.md 4 (C08)'),
+             'side, of the header width (pandas precondition), NaN score iff requested; all six join drivers and the filter_tables of Size / '
+             'Overlap / Prefix / Position filters are proved to work on the dropna-projected arrays and to append the missing pairs iff '
+             'allow_missing; filter_pair (Size, Overlap), filter_candset and apply_matcher are proved to keep a pair with a missing value iff '
+             'allow_missing; no exception for any distribution of missing values.',
+        note=_COMMON_NOTE, technique=TECH, design_ref='DESIGN.md 0.3, 4 (C08)'),
     'C09': dict(
-        text='set_sim_join: a right row without tokens is paired with exactly the cached empty left rows iff allow_empty, score 1.0, '
-             'whatever threshold and operator; a pair with one empty side is never emitted (proved as part of the sound/complete invariants).',
-        note=_COMMON_NOTE, technique=TECH, design_ref='DESIGN.md 4 (C09)'),
+        text='set_sim_join, _overlap_coefficient_join_split and the filter_tables of SizeFilter / PrefixFilter / PositionFilter: a right row '
+             'without tokens is paired with exactly the cached token-less left rows iff allow_empty (score 1.0 in the joins), whatever '
+             'threshold and operator; a pair with one empty side is never emitted by a join; OverlapFilter / overlap_join never return a pair '
+             'without common token; SizeFilter.filter_pair keeps a both-empty pair iff allow_empty. The index builders are proved to cache '
+             'exactly the token-less rows and never to index them.',
+        note=_COMMON_NOTE, technique=TECH, design_ref='DESIGN.md 0.3, 4 (C09)'),
     'C10': dict(
         text='split_table is proved (float model) to cut a table into contiguous chunks with boundaries b(0)=0 <= ... <= b(k)=len; '
-             'get_num_processes_to_launch >= 1; drivers: every chunk call satisfies the precondition of set_sim_join, pd.concat gets equal '
-             'headers, _id = 0..n-1 on all paths.',
-        note=_COMMON_NOTE + ' Equality of the parallel result with the serial one and invariance under row permutation are not '
-             'derived deductively (the partition lemma needs induction; real scheduling is outside any contract).',
-        technique=TECH, design_ref='DESIGN.md 4 (C10)'),
+             'get_num_processes_to_launch >= 1; every driver (six joins, four filter_tables, filter_candset, apply_matcher): each chunk call '
+             'satisfies the precondition of the split function, pd.concat gets equal headers, _id = 0..n-1 on all paths. The stacks whose '
+             'output is characterised exactly pair by pair (Overlap, Size, overlap coefficient, apply_matcher, filter_candset) and the '
+             'join results (decided by the final verification) are functions of the two rows of a pair, not of their position; the token '
+             'order is proved to be (frequency, token) order.',
+        note=_COMMON_NOTE + ' Equality of the parallel result with the serial one and invariance under row permutation / index relabelling are '
+             'consequences of these per-pair characterisations that are not themselves stated as an obligation (they relate two runs); '
+             'real process scheduling is outside any contract.',
+        technique=TECH, design_ref='DESIGN.md 0.3, 4 (C10)'),
     'C11': dict(
         text='remove_redundant_attrs (order-preserving de-duplication without the key), get_attrs_to_project, '
              'find_output_attribute_indices, get_output_row_from_tables, get_output_header_from_tables are proved against full functional '
-             'specifications; set_sim_join and get_pairs_with_missing_value are proved to produce the documented header and rows whose '
-             'cells equal the named attributes of the source rows; drivers add _id and keep the rest.',
-        note=_COMMON_NOTE, technique=TECH, design_ref='DESIGN.md 4 (C11)'),
+             'specifications; every split function (set_sim_join, overlap coefficient, edit distance, Size / Overlap / Prefix / Position '
+             'filter_tables) and get_pairs_with_missing_value are proved to produce the documented header and rows whose cells equal the '
+             'named attributes of the source rows; drivers add _id and keep the rest.',
+        note=_COMMON_NOTE, technique=TECH, design_ref='DESIGN.md 0.3, 4 (C11)'),
     'C12': dict(
-        text='For the three set-similarity drivers: on every normal and every exceptional exit the tokenizer return_set flag equals its '
-             'entry value (frame obligations on all 17-18 paths per case) and no input object is written (pandas operations used are '
-             'functional in the model).',
-        note=_COMMON_NOTE + ' Histories: follows by induction from the per-call frame; state hidden inside third-party objects is not covered.',
-        technique=TECH, design_ref='DESIGN.md 4 (C12)'),
+        text='For the six join drivers, the four filter_tables, filter_candset and apply_matcher: on every normal and every exceptional '
+             'exit the tokenizer return_set flag equals its entry value (frame obligations on all paths) and no input object is written '
+             '(pandas operations used are functional in the model).',
+        note=_COMMON_NOTE + ' Histories: follows by induction from the per-call frame; state hidden inside third-party objects and the shared '
+             'default tokenizer of the edit_distance_join dispatcher are not covered. Known finding D10 is recorded.',
+        technique=TECH, design_ref='DESIGN.md 0.3, 4 (C12)'),
     'C15': dict(
-        text='Every validate_* helper has an exact exceptional contract (raises X iff condition); the three drivers are proved to raise '
-             'TypeError / AssertionError exactly when a documented precondition fails, before any write, and never otherwise: all implicit '
-             'exceptions (KeyError, IndexError, ZeroDivisionError, pandas shape errors) are discharged as safety obligations.',
+        text='Every validate_* helper has an exact exceptional contract (raises X iff condition); the six join drivers, the four filter '
+             'constructors and filter_tables, filter_candset and apply_matcher are proved to raise TypeError / AssertionError exactly when a '
+             'documented precondition fails, before any write, and never otherwise: all implicit exceptions (KeyError, IndexError, '
+             'ZeroDivisionError, pandas shape errors) are discharged as safety obligations.',
         note=_COMMON_NOTE + ' Known findings D8 (thresholds below 1e-150) and D10 (output name equal to _id) are recorded.',
-        technique=TECH, design_ref='DESIGN.md 4 (C15)'),
-})
-
-CLAIMS.update({
+        technique=TECH, design_ref='DESIGN.md 0.3, 4 (C15)'),
     'C04': dict(
         text='SizeFilter (JACCARD, COSINE, DICE) and OverlapFilter: filter_pair is proved never to drop a pair of present values whose '
              'similarity meets the threshold (SizeFilter: exact window characterisation + the proved safety theorem of the size bounds; '
@@ -130,7 +145,7 @@ CLAIMS['C03'] = dict(
          'the threshold, to switch the tokenizer to bag mode and restore it on every exit, and to relay the rows.',
     note=_COMMON_NOTE + ' The documented completeness guarantee (every qualifying pair sharing a q-gram) is derived from the proved '
          'candidate completeness plus two ASSUMED facts of pure mathematics (length bound of the edit distance; q-gram prefix principle), '
-         'listed in the evidence; gen_token_ordering_for_tables / order_using_token_ordering are bounded stand-ins.',
+         'listed in the evidence.',
     technique=TECH, design_ref='DESIGN.md 4 (C03)')
 
 _REL = ('relational property over several runs (the join against filter_tables + apply_matcher; swapped tables; two thresholds; three '
